@@ -224,8 +224,17 @@ def rule_wait_protocol(ctx, rule):
                 # is that the predicate looks at the queue
                 po = f.origin(f.term(w)["args"][2]) if len(f.term(w)["args"]) > 2 else ("unknown",)
                 pf = ctx.facts.fns.get(po[1]) if po[0] == "agg" else None
-                looks = pf is not None and any(re.search(r"VecDeque::<T(, A)?>::(is_empty|len|front|iter|contains)$", call_name(t2)) for b2, t2 in pf.calls())
-                ctx.ob(rule, key + "|in-loop", "the wait is std's predicate loop (wait_while), and its predicate examines the queue", looks, f.loc(w))
+                # ... and says "keep waiting" exactly while the queue is empty (so that the pop that follows finds an entry)
+                looks = False
+                if pf is not None:
+                    ro = pf.origin_place({"l": 0, "p": []})
+                    straight = not any(pf.term(b)["t"] == "switch" for b in range(pf.n) if not pf.blocks[b]["cleanup"])
+                    if ro[0] == "call" and re.search(r"VecDeque::<T(, A)?>::is_empty$", ro[1]) and straight:
+                        looks = True
+                    if ro[0] == "binop" and ro[1] == "Eq" and straight and any(x[0] == "call" and re.search(r"VecDeque::<T(, A)?>::len$", x[1]) for x in (ro[2], ro[3])) and \
+                            any(x[0] == "const" and x[1] == 0 for x in (ro[2], ro[3])):
+                        looks = True
+                ctx.ob(rule, key + "|in-loop", "the wait is std's predicate loop (wait_while), and its predicate is `the queue is empty`", looks, f.loc(w))
                 ctx.ob(rule, key + "|predicate-first", "the queue is examined before the thread goes to sleep", looks, f.loc(w))
             else:
                 ctx.ob(rule, key + "|in-loop", "the condvar wait sits in a loop", f.in_loop(w), f.loc(w))
